@@ -40,6 +40,9 @@ def cases():
     add("v['k'] -> json_extract(v, '$.k')", "indices_to_json_extract",
         mk(lambda o: node("Bracket", "stmt", this=op(o, "x"), expressions=Lst([lit("k", True)]))),
         lambda o, i: P("JSONExtract", this=IS(o["x"]), expression=LITERAL("$.k", True)), "object access by key")
+    add("v['2023'] (quoted, all digits) -> json_extract(v, '$.2023')", "indices_to_json_extract",
+        mk(lambda o: node("Bracket", "stmt", this=op(o, "x"), expressions=Lst([lit("2023", True)]))),
+        lambda o, i: P("JSONExtract", this=IS(o["x"]), expression=LITERAL("$.2023", True)), "a quoted subscript is an object key whatever its text")
     add("v[2] -> json_extract(v, '$[2]')", "indices_to_json_extract",
         mk(lambda o: node("Bracket", "stmt", this=op(o, "x"), expressions=Lst([lit("2", False)]))),
         lambda o, i: P("JSONExtract", this=IS(o["x"]), expression=LITERAL("$[2]", True)), "array access by zero-based index")
